@@ -65,3 +65,29 @@ def probe_image(case):
             return ("ok", out)
     except Exception as e:  # noqa
         return ("reject", type(e).__name__)
+
+
+MARKER = ("retry/marker.bin", b"written by the session that came after the crash")
+
+
+def probe_append(case):
+    """the caller's natural reaction to a crash: run an append session on what was left.  Opens the image with mode 'a', adds one
+    member, closes, and reads the result like probe_image: ('reject', exc) when mode 'a' refuses the image, else ('ok', members)"""
+    import hashlib
+
+    from .common import import_py7zr
+
+    py7zr = import_py7zr()
+    raw, password = case
+    bio = io.BytesIO(raw)
+    try:
+        z = py7zr.SevenZipFile(bio, "a", password=password)
+    except Exception as e:  # noqa
+        return ("reject", type(e).__name__)
+    try:
+        z.writestr(MARKER[1], MARKER[0])
+        z.close()
+    except Exception as e:  # noqa
+        return ("reject-late", type(e).__name__)
+    o = probe_image((bio.getvalue(), password))
+    return o
